@@ -91,7 +91,7 @@ func (m *c13M) callN(fr *c13Frame, call *ast.CallExpr, used bool) []c13V {
 			fi = m.decls[fn.Origin()]
 		}
 		if fi != nil && fi.Decl.Body != nil {
-			if recv != nil && !used && !m.matters(fn) {
+			if recv != nil && !used && !m.allMatter && !m.matters(fn) {
 				// a method of the modelled object that neither writes to the child nor changes a
 				// tracked field nor posts an event: no effect on what is decided here
 				return nil
@@ -410,7 +410,34 @@ func (m *c13M) builtin(fr *c13Frame, name string, call *ast.CallExpr) c13V {
 			return c13V{k: c13Ptr, st: z.st}
 		}
 		return c13V{k: c13Ptr, loc: &z}
-	case "delete", "clear", "copy", "close":
+	case "copy":
+		// copy(dst, src) between slices the evaluator holds (element-wise, in place: dst shares its
+		// backing array with every alias, as in Go); src may be a string for a byte slice
+		dst, src := m.eval(fr, call.Args[0]), m.eval(fr, call.Args[1])
+		if dst.k == c13Nil || src.k == c13Nil {
+			return c13int(0, intT)
+		}
+		if dst.k == c13Slice && (src.k == c13Slice || (src.k == c13Str && isByteSlice(dst.typ))) {
+			n := 0
+			if src.k == c13Str {
+				for n < len(dst.el) && n < len(src.s) {
+					dst.el[n] = c13int(int64(src.s[n]), types.Typ[types.Uint8])
+					n++
+				}
+			} else {
+				tmp := make([]c13V, len(src.el)) // overlapping ranges: copy behaves like memmove
+				for i := range src.el {
+					tmp[i] = m.copyV(src.el[i])
+				}
+				for n < len(dst.el) && n < len(tmp) {
+					dst.el[n] = tmp[n]
+					n++
+				}
+			}
+			return c13int(int64(n), intT)
+		}
+		m.abort("builtin copy on values the evaluator does not hold at %s", m.c.P.Pos(call.Pos()))
+	case "delete", "clear", "close":
 		m.abort("builtin %s at %s", name, m.c.P.Pos(call.Pos()))
 	case "print", "println":
 		m.args(fr, call)
